@@ -967,7 +967,7 @@ func (x *Exec) step(fr *Frame, st *State, ins ssa.Instruction) {
 	case *ssa.Alloc:
 		et := ins.Type().Underlying().(*types.Pointer).Elem()
 		local := ""
-		if _, isArr := et.Underlying().(*types.Array); !ins.Heap && !isArr {
+		if _, isArr := et.Underlying().(*types.Array); !ins.Heap && (!isArr || isUUID(et)) {
 			// a non-escaping local: only this frame can name it, so it gets private heap arrays
 			local = "L_" + smtName(relName(fr.fn)) + "_" + ins.Name()
 		}
@@ -1106,6 +1106,13 @@ func (x *Exec) doAlloc(st *State, elemT types.Type, local string) Value {
 		su := elemT.Underlying().(*types.Struct)
 		for i := 0; i < su.NumFields(); i++ {
 			x.writeLV(st, x.fieldLV(Value{T: r, Local: local}, elemT, i), zeroTerm(su.Field(i).Type()))
+			if n, ok := types.Unalias(su.Field(i).Type()).(*types.Named); ok && n.Obj().Name() == "ShardedMap" && n.TypeArgs().Len() == 2 {
+				// the zero ShardedMap is empty
+				mt, id := x.shardedMap(st, Value{LV: x.fieldLV(Value{T: r, Local: local}, elemT, i)}, n)
+				_, _, pk, ps := mapHeapKeys(mt)
+				hp := st.H(pk, ps)
+				st.setCell(pk, Store(hp, id, ConstArray(arraySort(sortOf(mt.Key()), "Bool"), False)), id)
+			}
 		}
 		if f := wfBound(Add(r, Int(1)), r, types.NewPointer(elemT)); f != True {
 			x.assume(st, f)
@@ -1113,7 +1120,7 @@ func (x *Exec) doAlloc(st *State, elemT types.Type, local string) Value {
 		return Value{T: r, Local: local}
 	}
 	lv := x.derefLV(Value{T: r, Local: local}, elemT)
-	if at, ok := elemT.Underlying().(*types.Array); ok {
+	if at, ok := elemT.Underlying().(*types.Array); ok && !isUUID(elemT) {
 		h := st.H(lv.Key, lv.Sort)
 		st.setH(lv.Key, Store(h, r, ConstArray(arraySort("Int", sortOf(at.Elem())), zeroTerm(at.Elem()))))
 		return Value{T: r}
